@@ -20,6 +20,9 @@ pub struct SnapState {
     pub mouse: bool,
     pub kempston: bool,
     pub frame_t: u32,
+    /// 128K SNA only: the "TR-DOS ROM paged" byte behind the 0x7FFD value (no TR-DOS is emulated; the
+    /// loader has to ignore it)
+    pub sna_trdos: u8,
 }
 
 impl SnapState {
@@ -37,6 +40,7 @@ impl SnapState {
             mouse: false,
             kempston: false,
             frame_t: 0,
+            sna_trdos: 0,
         }
     }
     /// bank mapped at 0xC000
@@ -108,7 +112,7 @@ pub fn write_sna128(s: &SnapState) -> Vec<u8> {
     }
     out.extend_from_slice(&s.cpu.pc.to_le_bytes());
     out.push(s.port_7ffd);
-    out.push(0);
+    out.push(s.sna_trdos);
     for b in 0..8usize {
         if b == 5 || b == 2 || b == n {
             continue;
